@@ -30,6 +30,110 @@ fn h<X: Term>(x: &X) -> u64 {
     Term::hash(x, &mut s);
     s.finish()
 }
+/// a `Hasher` that records every call it receives (the model's `termHash` is exactly this sequence):
+/// `is<n>` write_isize, `w<hex>` write(bytes), `u8_<n>` write_u8, `u32_<n>` write_u32, ...
+#[derive(Default)]
+struct Rec(Vec<String>);
+impl Hasher for Rec {
+    fn finish(&self) -> u64 {
+        0
+    }
+    fn write(&mut self, bytes: &[u8]) {
+        self.0.push(format!("w{}", hex_bytes(bytes)));
+    }
+    fn write_u8(&mut self, i: u8) {
+        self.0.push(format!("u8_{}", i));
+    }
+    fn write_u16(&mut self, i: u16) {
+        self.0.push(format!("u16_{}", i));
+    }
+    fn write_u32(&mut self, i: u32) {
+        self.0.push(format!("u32_{}", i));
+    }
+    fn write_u64(&mut self, i: u64) {
+        self.0.push(format!("u64_{}", i));
+    }
+    fn write_u128(&mut self, i: u128) {
+        self.0.push(format!("u128_{}", i));
+    }
+    fn write_usize(&mut self, i: usize) {
+        self.0.push(format!("us{}", i));
+    }
+    fn write_i8(&mut self, i: i8) {
+        self.0.push(format!("i8_{}", i));
+    }
+    fn write_i16(&mut self, i: i16) {
+        self.0.push(format!("i16_{}", i));
+    }
+    fn write_i32(&mut self, i: i32) {
+        self.0.push(format!("i32_{}", i));
+    }
+    fn write_i64(&mut self, i: i64) {
+        self.0.push(format!("i64_{}", i));
+    }
+    fn write_i128(&mut self, i: i128) {
+        self.0.push(format!("i128_{}", i));
+    }
+    fn write_isize(&mut self, i: isize) {
+        self.0.push(format!("is{}", i));
+    }
+}
+/// the call sequence `Term::hash` feeds to a hasher
+fn rec<X: Term>(x: &X) -> String {
+    let mut s = Rec::default();
+    Term::hash(x, &mut s);
+    s.0.join(".")
+}
+/// the call sequence the std `Hash` impl feeds
+fn srec<X: Hash>(x: &X) -> String {
+    let mut s = Rec::default();
+    Hash::hash(x, &mut s);
+    s.0.join(".")
+}
+/// a hasher that is NOT byte-streaming (Fx style: one multiply-rotate round per call / per word): two call
+/// sequences carrying the same bytes in different pieces hash differently
+#[derive(Default)]
+struct Fx(u64);
+impl Fx {
+    fn add(&mut self, w: u64) {
+        self.0 = (self.0.rotate_left(5) ^ w).wrapping_mul(0x51_7c_c1_b7_27_22_0a_95);
+    }
+}
+impl Hasher for Fx {
+    fn finish(&self) -> u64 {
+        self.0
+    }
+    fn write(&mut self, mut bytes: &[u8]) {
+        while bytes.len() >= 8 {
+            self.add(u64::from_le_bytes(bytes[..8].try_into().unwrap()));
+            bytes = &bytes[8..];
+        }
+        if bytes.len() >= 4 {
+            self.add(u32::from_le_bytes(bytes[..4].try_into().unwrap()) as u64);
+            bytes = &bytes[4..];
+        }
+        for b in bytes {
+            self.add(*b as u64);
+        }
+    }
+    fn write_u8(&mut self, i: u8) {
+        self.add(i as u64);
+    }
+    fn write_u32(&mut self, i: u32) {
+        self.add(i as u64);
+    }
+    fn write_u64(&mut self, i: u64) {
+        self.add(i);
+    }
+    fn write_usize(&mut self, i: usize) {
+        self.add(i as u64);
+    }
+}
+fn fx<X: Term>(x: &X) -> u64 {
+    let mut s = Fx::default();
+    Term::hash(x, &mut s);
+    s.finish()
+}
 fn sh<X: Hash>(x: &X) -> u64 {
     let mut s = DefaultHasher::new();
     Hash::hash(x, &mut s);
@@ -100,6 +204,8 @@ impl Agg {
 struct Inner<'a, X> {
     x: &'a X,
     hx: u64,
+    fxx: u64,
+    recx: String,
     xname: &'static str,
     m: &'a mut Matrix,
 }
@@ -113,6 +219,8 @@ impl<X: Term> Visitor for Inner<'_, X> {
         self.m.eq.add(b2s(e), &who);
         self.m.cmp.add(ord(c), &who);
         self.m.heq.add(b2s(self.hx == h(&y)), &who);
+        self.m.hfx.add(b2s(self.fxx == fx(&y)), &who);
+        self.m.hseq.add(b2s(self.recx == rec(&y)), &who);
         // the same two values with the roles exchanged: eq symmetric, cmp antisymmetric
         self.m.sym.add(b2s(Term::eq(&y, self.x.borrow_term()) == e), &who);
         self.m.swap.add(b2s(Term::cmp(&y, self.x.borrow_term()) == c.reverse()), &who);
@@ -125,6 +233,8 @@ struct Matrix {
     heq: Agg,
     sym: Agg,
     swap: Agg,
+    hfx: Agg,
+    hseq: Agg,
     pairs: u64,
 }
 struct Outer<'a> {
@@ -133,7 +243,7 @@ struct Outer<'a> {
 }
 impl Visitor for Outer<'_> {
     fn visit<X: Term + std::fmt::Debug>(&mut self, name: &'static str, x: X) {
-        let mut inner = Inner { x: &x, hx: h(&x), xname: name, m: &mut self.m };
+        let mut inner = Inner { x: &x, hx: h(&x), fxx: fx(&x), recx: rec(&x), xname: name, m: &mut self.m };
         with_reprs(self.b, &mut inner);
     }
 }
@@ -157,7 +267,7 @@ struct StdRes {
 fn std_traits(a: &T, b: &T) -> StdRes {
     let mut r = StdRes::default();
     let (sa, sb) = (tgen::to_simple(a), tgen::to_simple(b));
-    let (ha, hb) = (h(&sa), h(&sb));
+    let (ha, hb) = (rec(&sa), rec(&sb));
     // same type on both sides: ==, !=, Ord::cmp, partial_cmp, Hash (+ std Hash == Term::hash)
     macro_rules! fam {
         ($name:expr, $fa:expr, $fb:expr) => {{
@@ -170,7 +280,7 @@ fn std_traits(a: &T, b: &T) -> StdRes {
             r.scmp.add(pord(PartialOrd::partial_cmp(fa, fb)), &who);
             r.scmp.add(ord(Ord::cmp(fb, fa).reverse()), &who);
             r.sheq.add(b2s(sh(fa) == sh(fb)), &who);
-            r.shx.add(b2s(sh(fa) == ha && sh(fb) == hb), &who);
+            r.shx.add(b2s(srec(fa) == ha && srec(fb) == hb), &who);
         }};
     }
     // different types: ==, partial_cmp
@@ -234,6 +344,7 @@ fn std_traits(a: &T, b: &T) -> StdRes {
 }
 
 struct Conv<'a> {
+    seqs: Agg,
     t: &'a T,
     bad: Vec<String>,
     inexact: Vec<String>,
@@ -252,6 +363,7 @@ impl Visitor for Conv<'_> {
                 self.inexact.push(format!("{}.{}", name, path));
             }
         };
+        self.seqs.add(&rec(&x), &|| name.to_string());
         chk("view", tgen::view(x.borrow_term()));
         chk("into_term<SimpleTerm>", tgen::view(x.borrow_term().into_term::<SimpleTerm>()));
         chk("from_term_ref", tgen::view(SimpleTerm::from_term_ref(&x)));
@@ -663,10 +775,12 @@ pub fn exec(line: &str) -> String {
             let s = std_traits(a, b);
             let xk = if tkind(a) != tkind(b) { m.cmp.get() } else { "-".into() };
             let mut out = format!(
-                "eq={} cmp={} heq={} cmpeq={} xk={} sym={} swap={} pairs={} seq={} scmp={} scmpeq={} sheq={} shx={} spairs={}",
+                "eq={} cmp={} heq={} hfx={} hseq={} cmpeq={} xk={} sym={} swap={} pairs={} seq={} scmp={} scmpeq={} sheq={} shx={} spairs={}",
                 m.eq.get(),
                 m.cmp.get(),
                 m.heq.get(),
+                m.hfx.get(),
+                m.hseq.get(),
                 m.cmp.is_eq(),
                 xk,
                 m.sym.get(),
@@ -697,6 +811,14 @@ pub fn exec(line: &str) -> String {
             if s.seq.get() == "1" && s.sheq.get() != "1" {
                 out += " FAIL.std_eq_not_hash=1";
             }
+            // equal terms must feed the SAME call sequence to any hasher (the model's `eq_hash`), whatever
+            // the representations: otherwise a hasher that is not byte-streaming tells them apart
+            if m.eq.get() == "1" && m.hseq.get() != "1" {
+                out += &format!(" FAIL.hash_sequence_differs={}", m.hseq.get());
+            }
+            if m.eq.get() == "1" && m.hfx.get() != "1" {
+                out += " FAIL.eq_not_hash_fx=1";
+            }
             if m.sym.get() != "1" {
                 out += " FAIL.eq_not_symmetric=1";
             }
@@ -713,14 +835,20 @@ pub fn exec(line: &str) -> String {
             if !well_formed(&ts[0]) {
                 return "skip=not-well-formed".into();
             }
-            let mut c = Conv { t: &ts[0], bad: vec![], inexact: vec![], n: 0 };
+            let mut c = Conv { seqs: Agg::default(), t: &ts[0], bad: vec![], inexact: vec![], n: 0 };
             with_reprs(&ts[0], &mut c);
             let exact = if c.inexact.is_empty() { "1".to_string() } else { format!("0({})", c.inexact.join(",")) };
-            if c.bad.is_empty() {
+            let mut out = if c.bad.is_empty() {
                 format!("conv=ok exact={} paths={}", exact, c.n)
             } else {
                 format!("conv=bad exact={} FAIL.conversion={}", exact, c.bad.join(","))
+            };
+            // the call sequence every representation of this one term feeds to a hasher (= the model's termHash)
+            out += &format!(" hashseq={}", c.seqs.get());
+            if c.seqs.mixed() {
+                out += " FAIL.hash_sequence_differs=1";
             }
+            out
         }
         "t" => {
             let Some(ts) = parse_terms(rest) else { return "bad-op".into() };
@@ -784,6 +912,7 @@ pub fn exec(line: &str) -> String {
                 rev: Agg,
                 cmp: Agg,
                 heq: Agg,
+                hseq: Agg,
             }
             impl Visitor for NsV<'_> {
                 fn visit<Y: Term + std::fmt::Debug>(&mut self, name: &'static str, y: Y) {
@@ -793,11 +922,15 @@ pub fn exec(line: &str) -> String {
                     self.rev.add(b2s(Term::eq(&y, self.t)), &who);
                     self.cmp.add(ord(Term::cmp(&self.t, y.borrow_term())), &who);
                     self.heq.add(b2s(h(&self.t) == h(&y)), &who);
+                    self.hseq.add(b2s(rec(&self.t) == rec(&y) && fx(&self.t) == fx(&y)), &who);
                 }
             }
-            let mut v = NsV { t, eq: Agg::default(), rev: Agg::default(), cmp: Agg::default(), heq: Agg::default() };
+            let mut v = NsV { t, eq: Agg::default(), rev: Agg::default(), cmp: Agg::default(), heq: Agg::default(), hseq: Agg::default() };
             with_reprs(&b, &mut v);
-            let mut out = format!("nseq={} nseq_rev={} nscmp={} nsheq={}", v.eq.get(), v.rev.get(), v.cmp.get(), v.heq.get());
+            let mut out = format!("nseq={} nseq_rev={} nscmp={} nsheq={} nshseq={}", v.eq.get(), v.rev.get(), v.cmp.get(), v.heq.get(), v.hseq.get());
+            if v.eq.get() == "1" && v.hseq.get() != "1" {
+                out += " FAIL.hash_sequence_differs=1";
+            }
             if v.eq.get() == "1" && v.heq.get() != "1" {
                 out += " FAIL.eq_not_hash=1";
             }
